@@ -552,7 +552,7 @@ theorem bi_replace (hx : ExtOk ext) (hg : GgOk Gg) (tys : List Ty) (vs : List (V
   obtain ⟨x, rfl⟩ := h1.str_inv
   obtain ⟨y, rfl⟩ := h2.str_inv
   obtain ⟨z, rfl⟩ := h3.str_inv
-  exact forward_str ext Gg hx hk hgl _ (by simp [strFns]) _ _
+  exact ⟨S, Grows.refl S, hk, hgl, rfl, fun t ht => by cases ht; exact .str _⟩
 
 theorem bi_str2num (hx : ExtOk ext) (hg : GgOk Gg) (tys : List Ty) (vs : List (Val F)) (st : St F) (S : Store)
     (hle : (⟨[isStrT], none, some .num⟩ : BSig).params.length ≤ vs.length)
@@ -897,18 +897,13 @@ theorem bi_split (hx : ExtOk ext) (hg : GgOk Gg) (tys : List Ty) (vs : List (Val
   have := isStrT_eq (hpred 1 t2 rfl); subst this
   obtain ⟨x, rfl⟩ := h1.str_inv
   obtain ⟨y, rfl⟩ := h2.str_inv
-  simp only [callExt]
   have fin : ∀ (l : List Str) (st1 : St F), st1.heap = st.heap → st1.global = st.global → st1.locals = st.locals →
       GoodBI Gg (some (.arr .str)) S st (.ok (Val.arr (alloc st1 (.arr (l.map Val.str))).1) (alloc st1 (.arr (l.map Val.str))).2) := by
     intro l st1 e1 e2 e3
     have hk1 : HeapOk S st1.heap := by rw [e1]; exact hk
     obtain ⟨hk', vt⟩ := hk1.push_arr .str rfl (l.map Val.str) (by intro v hv; obtain ⟨z, _, rfl⟩ := List.mem_map.mp hv; exact .str z)
     exact ⟨_, Grows.snoc S _, hk', by simp only [alloc, e2]; exact hgl.mono (Grows.snoc S _), by simp only [alloc, e3], fun t ht => by cases ht; exact vt⟩
-  cases hc : ext.call "split" [XArg.str x, XArg.str y] with
-  | none => exact fin [] _ rfl rfl rfl
-  | some r =>
-    obtain ⟨l, rfl⟩ := hx.2.2.2 _ _ hc
-    exact fin l st rfl rfl rfl
+  exact fin (strSplit x y) st rfl rfl rfl
 
 theorem bi_rand (hx : ExtOk ext) (hg : GgOk Gg) (tys : List Ty) (vs : List (Val F)) (st : St F) (S : Store)
     (hle : (⟨[isNumT], none, some .num⟩ : BSig).params.length ≤ vs.length)
